@@ -9,6 +9,6 @@ CONSTANTS
 INIT InitEnum
 NEXT NextEnum
 VIEW ViewEnum
-INVARIANTS TypeEnum DenseAgree FastAgree
+INVARIANTS TypeEnum
 ACTION_CONSTRAINT EmitEnum
 CHECK_DEADLOCK FALSE
